@@ -233,7 +233,7 @@ Section Proofs.
           assert (cnt = 0) by (apply k6t; auto). lia.
         * intros Hs. exfalso. eapply Hothers; eauto.
       + intros Hr. specialize (k7 Hr). lia.
-      + rewrite <- updn_upd. apply allT_updn; auto; try solve [ subst t' ].
+      + rewrite <- updn_upd. apply allT_updn; auto. subst t'.
         destruct (cnt =? 1); [destruct hd; simpl; discriminate|]. intros H. exfalso. revert H. apply next_facts.
     - (* PC0 *)
       cntmid l i (mkthr V PC0 pr g) (setpc V (mkthr V PC0 pr g) (match ns with O => PFill | S _ => PCol 0 end)) Hi.
